@@ -20,7 +20,7 @@ Ltac c20_huber_branches :=
 Ltac c20_loss := c20_huber_branches; cbv [loss_apply dy_R fst snd]; interval with (i_prec 80).
 
 Ltac c20_lists :=
-  cbv [est_cost est_cost_with normalise ds_cost_of ds_cost reldiff zipw map concat app sumf fold_right nth length INR
+  cbv [est_cost_st est_run est_add est_new fst snd est_cost est_cost_with normalise ds_cost_of ds_cost reldiff zipw map concat app sumf fold_right nth length INR
        ds_loss ds_s ds_pred ds_target mard mard_fold mard_step finite_part fold_left Nat.add].
 
 Ltac c20_est := c20_lists; c20_loss.
@@ -39,6 +39,11 @@ Example tie_est_example :
   Rabs (nth 2 (est_cost (map dy_R [(1,0); (3,0)]%Z)
                  [mkds Huber (dy_R (1,-1)%Z) (map dy_R [(2,0)]%Z) (map dy_R [(1,0)]%Z);
                   mkds Cauchy (dy_R (1,0)%Z) (map dy_R [(3,0); (3,0)]%Z) (map dy_R [(2,0);(4,0)]%Z)]) 0 - 0.09233) <= 1e-5.
+Proof. c20_est. Qed.
+
+Example tie_est_state_example :
+  Rabs (nth 2 (est_cost_st (est_run (est_new (map dy_R [(1,0)]%Z) [mkds Huber (dy_R (1,-1)%Z) (map dy_R [(2,0)]%Z) (map dy_R [(1,0)]%Z)])
+                 [(dy_R (3,0)%Z, mkds Cauchy (dy_R (1,0)%Z) (map dy_R [(3,0); (3,0)]%Z) (map dy_R [(2,0);(4,0)]%Z))])) 0 - 0.09233) <= 1e-5.
 Proof. c20_est. Qed.
 
 Example tie_transport_example :
